@@ -222,6 +222,49 @@ class BStr:
                 return False
             return SymbolicBool(t)
 
+    def _lt_term(self, o, or_equal):
+        """z3 term: self < o (or <=) in lexicographic code point order"""
+        cap = max(len(self.ch), len(o.ch))
+        # walk from the last position to the first: result if all earlier positions are equal
+        res = (self.n <= o.n) if or_equal else (self.n < o.n)      # one is a prefix of the other
+        for i in reversed(range(cap)):
+            a = self.ch[i] if i < len(self.ch) else z3.IntVal(-1)
+            b = o.ch[i] if i < len(o.ch) else z3.IntVal(-1)
+            ina = i < self.n
+            inb = i < o.n
+            # at position i: if either string has ended, the prefix rule (already in res for this depth) applies
+            res = z3.If(z3.And(ina, inb), z3.If(a < b, True, z3.If(a > b, False, res)),
+                        ((self.n <= o.n) if or_equal else (self.n < o.n)))
+        return _simp(res)
+
+    def __lt__(self, o):
+        with NoTracing():
+            o2 = self._coerce(o)
+            if o2 is None:
+                return NotImplemented
+            return self._ret_bool(self._lt_term(o2, False))
+
+    def __le__(self, o):
+        with NoTracing():
+            o2 = self._coerce(o)
+            if o2 is None:
+                return NotImplemented
+            return self._ret_bool(self._lt_term(o2, True))
+
+    def __gt__(self, o):
+        with NoTracing():
+            o2 = self._coerce(o)
+            if o2 is None:
+                return NotImplemented
+            return self._ret_bool(o2._lt_term(self, False))
+
+    def __ge__(self, o):
+        with NoTracing():
+            o2 = self._coerce(o)
+            if o2 is None:
+                return NotImplemented
+            return self._ret_bool(o2._lt_term(self, True))
+
     # ---- searching -----------------------------------------------------------
     def _find_term(self, s, st, en, reverse=False):
         cap = len(self.ch)
